@@ -161,7 +161,20 @@ pub fn observe(ctx: &Ctx, st: &mut Stats, job: &Job) {
 
 pub fn run(ctx: &Ctx) -> Report {
     let jobs = jobs(ctx);
-    let mut st = pool::run(&jobs, ctx.remaining(), |st, job, _| observe(ctx, st, job));
+    let mut st = pool::run(&jobs, ctx.remaining(), |st, job, i| {
+        observe(ctx, st, job);
+        // every fifth job is followed, on the same thread, by a sibling: same payload, one option changed
+        if i % 5 == 0 {
+            if let Some(sib) = job.sibling(&ctx.caps) {
+                let before = st.violations.len();
+                observe(ctx, st, &sib);
+                st.count("sibling_builds_same_payload_other_option", 1);
+                for v in &mut st.violations[before..] {
+                    v.detail = format!("{} (sibling run: same payload as the job before it on this thread, one option changed; the fault may depend on that history)", v.detail);
+                }
+            }
+        }
+    });
     // payload/level/mask independence: exactly one label map per version
     for v in 1..=40 {
         let name = format!("label_maps_v{v:02}");
